@@ -79,10 +79,21 @@ SLeaves(t, k, s, p) ==
 StaticLeaves(t, k, s) == LET raw == SLeaves(t, k, s, 0).l IN [i \in 1..Len(raw) |-> IF raw[i].g = "Rep" THEN raw[raw[i].n] ELSE raw[i]]
 
 (* the structure yielded at segment k of task t: `reuse` = k0 > 0 means the very object yielded at segment k0 is yielded again *)
-TermSeg(P, t, k) == LET r == P.tasks[t].segs[k].term.reuse IN IF r # 0 THEN r ELSE k
-TermStruct(P, t, k) == P.tasks[t].segs[TermSeg(P, t, k)].term.s
-TermLeaves(P, t, k) == StaticLeaves(t, TermSeg(P, t, k), TermStruct(P, t, k))
 IsReuse(P, t, k) == P.tasks[t].segs[k].term.reuse # 0
+\* a re-yield may first APPEND new futures to the (list) object: term.s of the re-yielding segment is then a list of them
+ExtStruct(P, t, k) == P.tasks[t].segs[k].term.s
+HasExt(P, t, k) == IsReuse(P, t, k) /\ ExtStruct(P, t, k).g = "Lst"
+BaseSeg(P, t, k) == P.tasks[t].segs[k].term.reuse
+TermStruct(P, t, k) ==
+  IF ~IsReuse(P, t, k) THEN P.tasks[t].segs[k].term.s
+  ELSE LET base == P.tasks[t].segs[BaseSeg(P, t, k)].term.s
+       IN IF HasExt(P, t, k) THEN Val("Lst", 0, base.xs \o ExtStruct(P, t, k).xs) ELSE base
+NewLeaves(P, t, k) ==     \* the leaves created when segment k yields (none for a plain re-yield)
+  IF ~IsReuse(P, t, k) THEN StaticLeaves(t, k, P.tasks[t].segs[k].term.s)
+  ELSE IF HasExt(P, t, k) THEN StaticLeaves(t, k, ExtStruct(P, t, k)) ELSE <<>>
+TermLeaves(P, t, k) ==
+  IF ~IsReuse(P, t, k) THEN NewLeaves(P, t, k)
+  ELSE StaticLeaves(t, BaseSeg(P, t, k), P.tasks[t].segs[BaseSeg(P, t, k)].term.s) \o NewLeaves(P, t, k)
 
 ItemOut(mode, kind, f) ==       \* what a flush of that kind does to item f (a function of the item only)
   LET odd == (f % 2) = 1 IN
@@ -196,7 +207,7 @@ Fin(P, t, s) ==
         IF k > Len(segs) THEN cur
         ELSE LET seg == segs[k] IN
              IF seg.term.k # "yield" THEN cur
-             ELSE LET ls == IF IsReuse(P, t, k) THEN <<>> ELSE StaticLeaves(t, k, seg.term.s)     \* a re-yielded object is complete already
+             ELSE LET ls == NewLeaves(P, t, k)     \* what a re-yielded object held before is complete already
                       times == {cur} \cup {IF ls[i].g = "I" THEN cur + 1
                                            ELSE IF ls[i].g = "T" THEN Fin(P, ls[i].n, cur) ELSE cur : i \in 1..Len(ls)}
                       nxt == CHOOSE m \in times : \A x \in times : x <= m
